@@ -371,3 +371,55 @@ func TestTypeConfusion(t *testing.T) {
 }
 
 var _ = sort.Strings
+
+// Values at the size limit: a value of exactly the largest accepted size (and a few bytes below) is stored, the
+// trie is restructured around it (a sibling splits its leaf, the sibling goes again, an interior value comes and goes),
+// and after every step the root equals the reference root of the content and the value reads back complete, also from
+// a fresh trie on the same store.
+func TestValuesAtTheSizeLimit(t *testing.T) {
+	ev.Guard(t, "TestValuesAtTheSizeLimit", func() {
+		seed := ev.SeedFor("TestValuesAtTheSizeLimit")
+		for ci, short := range []int{0, 1, 7 + int(seed%13), 64} {
+			kind := []string{"memory", "level-mem", "pndb", "level-pndb"}[(uint64(ci)+seed)%4]
+			st := mptkit.NewStore(kind)
+			version := int64(seed % 3)
+			mpt := mptkit.NewTrie(st.DB, version, nil)
+			big := bytes.Repeat([]byte{0x3a, 0x00, 0x5a, byte(ci)}, util.MPTMaxAllowableNodeSize/4+1)[:util.MPTMaxAllowableNodeSize-short]
+			big[len(big)-1] = 0x77 // the last byte matters
+			content := map[string][]byte{}
+			step := func(what, path string, val []byte) {
+				var err error
+				if val == nil {
+					_, err = mpt.Delete(util.Path(path))
+					delete(content, path)
+				} else {
+					_, err = mpt.Insert(util.Path(path), mptkit.Val(val))
+					content[path] = val
+				}
+				if err != nil {
+					t.Fatalf("%s store, value of %d bytes: %s: %v", kind, len(big), what, err)
+				}
+				if want := refmpt.Root(content, version); !bytes.Equal(mpt.GetRoot(), want) {
+					t.Fatalf("%s store, value of %d bytes: after %s the root is %x, reference %x", kind, len(big), what, mpt.GetRoot(), want)
+				}
+				for _, tr := range []*util.MerklePatriciaTrie{mpt, mptkit.NewTrie(st.DB, version, mpt.GetRoot())} {
+					for p, want := range content {
+						got, err := tr.GetNodeValueRaw(util.Path(p))
+						if err != nil || !bytes.Equal(got, want) {
+							t.Fatalf("%s store, value of %d bytes: after %s lookup %q returns %d bytes (%v), stored %d", kind, len(big), what, p, len(got), err, len(want))
+						}
+					}
+				}
+			}
+			step("insert of the big value", "12ab34", big)
+			step("insert of a sibling that splits its leaf", "12ab56", []byte{1})
+			step("insert of an interior value", "12ab", []byte{2})
+			step("removal of the interior value", "12ab", nil)
+			step("removal of the sibling", "12ab56", nil)
+			step("insert of a key below the big value's path", "12ab3478", []byte{3})
+			step("removal of the big value", "12ab34", nil)
+			st.Close()
+			ev.Case(fmt.Sprintf("size-limit/%s/%d", kind, len(big)), true, "value-at-the-size-limit")
+		}
+	})
+}
